@@ -6,7 +6,7 @@ import io
 import sys
 
 from gunicorn.http.errors import (NoMoreData, ChunkMissingTerminator,
-                                  InvalidChunkSize)
+                                  InvalidChunkSize, LimitRequestHeaders)
 
 
 class ChunkedReader:
@@ -41,15 +41,21 @@ class ChunkedReader:
         buf = io.BytesIO()
         buf.write(data)
 
+        limit = self.req.max_buffer_headers
         idx = buf.getvalue().find(b"\r\n\r\n")
         done = buf.getvalue()[:2] == b"\r\n"
         while idx < 0 and not done:
+            # same bound as for the header block, never buffer without limit
+            if buf.tell() >= limit:
+                raise LimitRequestHeaders("max buffer trailers")
             self.get_data(unreader, buf)
             idx = buf.getvalue().find(b"\r\n\r\n")
             done = buf.getvalue()[:2] == b"\r\n"
         if done:
             unreader.unread(buf.getvalue()[2:])
             return b""
+        if idx + 4 > limit:
+            raise LimitRequestHeaders("max buffer trailers")
         self.req.trailers = self.req.parse_headers(buf.getvalue()[:idx], from_trailer=True)
         unreader.unread(buf.getvalue()[idx + 4:])
 
@@ -79,10 +85,16 @@ class ChunkedReader:
         if data is not None:
             buf.write(data)
 
+        limit = self.req.max_buffer_headers
         idx = buf.getvalue().find(b"\r\n")
         while idx < 0:
+            # chunk-size line (extensions included): never buffer without limit
+            if buf.tell() >= limit:
+                raise InvalidChunkSize(buf.getvalue()[:64])
             self.get_data(unreader, buf)
             idx = buf.getvalue().find(b"\r\n")
+        if idx + 2 > limit:
+            raise InvalidChunkSize(buf.getvalue()[:64])
 
         data = buf.getvalue()
         line, rest_chunk = data[:idx], data[idx + 2:]
